@@ -354,7 +354,7 @@ def stress(h, ctx, rounds, nthreads, seed):
                     res[tid] = h.outcome(f)
                 finally:
                     sys.settrace(None)
-            ths = [threading.Thread(target=body, args=(i,), daemon=True) for i in range(nthreads)]
+            ths = [threading.Thread(target=body, args=(i,), daemon=True, name='scorer') for i in range(nthreads)]
             for t in ths:
                 t.start()
             deadline = time.time() + 25
